@@ -25,7 +25,7 @@ fn ek<E: std::fmt::Debug>(e: &E) -> String {
 
 pub fn run(a: &Args) -> ShardOut {
     let mut total = ShardOut::default();
-    let cases = if a.thorough { 160 } else { 24 };
+    let cases = if a.thorough { 600 } else { 80 };
     for h in 0..cases {
         if let Some(only) = super::only_history() {
             if only != h {
@@ -154,6 +154,12 @@ fn reinit_case(w: &mut World) -> Result<(), String> {
     let mut new_ext = ExtensionList::new();
     if w.rng.chance(1, 2) {
         new_ext.set(Extension::new(ExtensionType::new(EXT_A), w.rng.bytes(4)));
+    }
+    // sometimes the successor keeps suite and extensions: then only the PSK binding tells a
+    // re-init Welcome from a branch Welcome of the same old epoch
+    let old_ext = w.g(c).context().extensions.clone();
+    if w.rng.chance(1, 3) {
+        new_ext = old_ext.clone();
     }
     w.log(json!({"op":"reinit","by":c,"new_suite":new_suite}));
     let out = {
@@ -411,6 +417,41 @@ fn reinit_case(w: &mut World) -> Result<(), String> {
                 Err(p) => w.violate("C17|panic|join_epoch_2", p),
             }
             continue;
+        }
+        // the genuine re-init Welcome is not a branch Welcome: the old group must refuse it there
+        if let Some((_, og)) = w.parties[i].former.last() {
+            let og = og.clone();
+            let (t, m) = (tree.clone(), wm.clone());
+            w.out.cov.bump("negative:reinit_welcome_as_subgroup");
+            match guarded(move || og.join_subgroup(&m, Some(t), None).map(|_| ())) {
+                Ok(Ok(())) => w.violate("C17|reinit_welcome_accepted_as_branch", format!("party {i} joined the successor through Group::join_subgroup of the old group")),
+                Ok(Err(_)) => {}
+                Err(p) => w.violate("C17|panic|join_subgroup_with_reinit_welcome", p),
+            }
+        }
+        // and a branch of the frozen old group under the announced group id is not the successor
+        if new_suite == old_suite && new_ext == old_ext && w.rng.chance(1, 3) {
+            if let (Some(kp), Some((_, ogc))) = (my_kp.clone(), w.parties[ci].former.last()) {
+                let ogc = ogc.clone();
+                let gid = new_gid.clone();
+                if let Ok(Ok((bg, bw))) = guarded(move || ogc.branch(gid, vec![kp], None)) {
+                    w.out.cov.bump("negative:branch_welcome_as_reinit");
+                    let bt = bg.export_tree().into_owned();
+                    let r = guarded(move || {
+                        let mut res = Err(mls_rs::error::MlsError::WelcomeKeyPackageNotFound);
+                        if let Some(m) = bw.first() {
+                            res = rc.join(m, Some(bt), None).map(|_| ());
+                        }
+                        res
+                    });
+                    match r {
+                        Ok(Ok(())) => w.violate("C17|branch_welcome_accepted_as_reinit", format!("party {i} joined a branch of the old group as if it were the re-initialised group")),
+                        Ok(Err(_)) => {}
+                        Err(p) => w.violate("C17|panic|join_reinit_with_branch_welcome", p),
+                    }
+                    continue;
+                }
+            }
         }
         let t = tree.clone();
         match guarded(move || rc.join(&wm, Some(t), None)) {
